@@ -364,6 +364,54 @@ def replay_size(case):
     check_codec({'nl': nl, 'route': {'kind': 'emplace'}, 'via_db': False, 'db_label': ''})
 
 
+# ---------------------------------------------------------------------------
+# gate types of the user's own (finite part): a type object that merely looks like a built-in one
+
+
+def own_gate_types(tier):
+    """A circuit holding a gate of a user-made GateType - named like a built-in type or not, computing that type's function
+    or another one - is a circuit: encoding it is refused, or the bytes give back its function."""
+    core = cirbo_core()
+    from cirbo.circuits_db.circuits_encoding import decode_circuit, encode_circuit
+    from cirbo.circuits_db.exceptions import CircuitsDatabaseError
+
+    gate = core.gate
+    # operator written here -> the reference type that computes the same function
+    operators = {'GT': lambda a, b: a and not b, 'LT': lambda a, b: (not a) and b, 'AND': lambda a, b: a and b,
+                 'NOR': lambda a, b: not (a or b), 'XOR': lambda a, b: a != b, 'LIFF': lambda a, b: a}
+    names = ['AND', 'OR', 'XOR', 'NAND', 'NOR', 'NXOR', 'GT', 'LT', 'GEQ', 'LEQ', 'LIFF', 'RIFF', 'ALWAYS_TRUE', 'MY_OWN_TYPE', 'and']
+    done = refused = 0
+    for name in names:
+        for ref_type, op in operators.items():
+            for sym in (False, True):
+                try:
+                    gt = gate.GateType(name, op, sym)
+                except Exception:  # noqa  - no such public constructor (any more): nothing to check
+                    return {'evaluations': 0, 'distinct_nontrivial': 0, 'exhaustive': True, 'samples': ['GateType is not constructible']}
+                c = core.Circuit.bare_circuit(2)
+                c.emplace_gate('g', gt, ('0', '1'))
+                c.emplace_gate('h', gate.NOT, ('g',))
+                c.set_outputs(['h', 'g'])
+                nl = {'inputs': ['0', '1'], 'gates': [['0', 'INPUT', []], ['1', 'INPUT', []], ['g', ref_type, ['0', '1']], ['h', 'NOT', ['g']]],
+                      'outputs': ['h', 'g']}
+                done += 1
+                try:
+                    data = encode_circuit(c)
+                except CircuitsDatabaseError:
+                    refused += 1
+                    continue
+                try:
+                    dec = decode_circuit(bytes(data))
+                except CircuitsDatabaseError as e:
+                    raise Violation('own_type:decode_error_on_encoded', f'own gate type named {name!r} (function of {ref_type}): {type(e).__name__}: {e}')
+                got = refsem.out_tables(refsem.from_circuit(dec))
+                if got != refsem.out_tables(nl) or len(dec.inputs) != 2:
+                    raise Violation('own_type:silently_different', f'own gate type named {name!r} computing {ref_type}: encoded without complaint, '
+                                                                   f'decodes to output tables {got}, the circuit has {refsem.out_tables(nl)}')
+    return {'evaluations': done, 'distinct_nontrivial': done, 'exhaustive': True, 'counters': {'refused': refused},
+            'samples': ['15 type names x 6 operators x both symmetry flags in a two-gate circuit']}
+
+
 SPEC = {
     'id': 'C16',
     'rule': ('(a) in-format circuits: the 14 encodable types with the arity the format defines (one operand for NOT/IFF, two for everything else incl. the constants), 0-8 inputs, any '
@@ -377,12 +425,13 @@ SPEC = {
              'keys (no lone surrogates) incl. maximum-length entries, every strict prefix and an extension. (e) in-memory '
              'CircuitsDatabase add -> save -> reopen -> get_by_label with arbitrary text labels. Non-trivial: >=2 '
              'non-input gates (circuits), >=3 writes not byte aligned (bits), >=2 entries (dict).'
-             ' Added during the build: a decoded circuit is changed by its owner and the same bytes decoded again; sharded size sweep.'),
+             ' Added during the build: a decoded circuit is changed by its owner and the same bytes decoded again; sharded size sweep; user-made gate types that are named like built-in ones.'),
     'assumptions': ['reference tables from vlib/refsem.py'],
     'subs': [Sub('codec', circuit_cases, check_codec, {'quick': 3000, 'thorough': 250000}),
              Sub('bits', bit_cases, check_bits, {'quick': 1500, 'thorough': 100000}),
              Sub('dict', dict_cases, check_dict, {'quick': 1200, 'thorough': 75000})],
     'sharded': {'size_sweep': size_sweep},
+    'exhaustive': {'own_gate_types': own_gate_types},
     'replay': {'size_sweep': replay_size},
     'required_classes': {'codec': ['in_format', 'out_of_format', 'storage_not_topological', 'constant',
                                    'zero_inputs_pow2_gates', 'nary>=3', 'LR_gate', 'via_db', 'dup_output'],
